@@ -54,6 +54,32 @@ def confirm(src):
     return res
 
 
+def run_checks_scratch(src, checks, tier):
+    """Triage only (does not touch /repo, so it can run next to a background run that uses /repo): the
+    patch is applied in a scratch worktree and the checks are pointed at it with VERIF_REPO."""
+    out = {}
+    wt = '/tmp/seedrun.%d' % os.getpid()
+    try:
+        r = sh(['git', '-C', '/repo', 'worktree', 'add', '--detach', wt, 'HEAD'])
+        if r.returncode:
+            raise RuntimeError(r.stderr)
+        r = sh(['git', '-C', wt, 'apply', os.path.join(src, 'patch.diff')])
+        if r.returncode:
+            raise RuntimeError('patch does not apply: ' + r.stderr)
+        env = dict(os.environ, VERIF_REPO=wt)
+        for c in checks:
+            t0 = time.time()
+            r = sh([os.path.join(VERIF, 'check'), 'run', c, '--tier', tier], cwd=VERIF, env=env)
+            keep = [l for l in r.stdout.splitlines() if l.startswith(('VIOLATION', 'KNOWN', '  clause', 'MACHINERY'))]
+            out[c] = {'rc': r.returncode, 'lines': keep[:8], 'wall': round(time.time() - t0, 1)}
+            if r.returncode == 2:
+                out[c]['tail'] = r.stdout.strip().splitlines()[-15:]
+    finally:
+        sh(['git', '-C', '/repo', 'worktree', 'remove', '--force', wt])
+        shutil.rmtree(wt, True)
+    return out
+
+
 def run_checks(src, checks, tier):
     out = {}
     st = sh(['git', '-C', '/repo', 'status', '--porcelain']).stdout.strip()
@@ -84,6 +110,7 @@ def main():
     ap.add_argument('--needs', default='')
     ap.add_argument('--tier', default='quick')
     ap.add_argument('--no-confirm', action='store_true')
+    ap.add_argument('--scratch', action='store_true', help='triage in a scratch worktree instead of /repo')
     a = ap.parse_args()
     src = os.path.abspath(a.src)
     checks = (a.checks or a.prop).split(',')
@@ -92,7 +119,7 @@ def main():
     if conf['confirmed'] is False:
         print('NOT CONFIRMED - not kept')
         return 1
-    res = run_checks(src, checks, a.tier)
+    res = (run_checks_scratch if a.scratch else run_checks)(src, checks, a.tier)
     for c, r in res.items():
         print(c, 'rc=%d' % r['rc'], '%.0fs' % r['wall'], '|', ' ; '.join(r['lines'][:4]))
         if r['rc'] == 2:
@@ -111,7 +138,8 @@ def main():
                                           'cd <scratch> && PYTHONPATH=<scratch> ' + ' '.join(TESTS) + '   (150 passed)',
                                           'PYTHONPATH=<scratch> /venv/bin/python demo.py   (changed: exit != 0)',
                                           'git -C /repo worktree remove --force <scratch>'],
-                'checks_run': {c: {'rc': r['rc'], 'detected': r['rc'] == 1, 'lines': r['lines'][:4], 'tier': a.tier}
+                'checks_run': {c: {'rc': r['rc'], 'detected': r['rc'] == 1, 'lines': r['lines'][:4], 'tier': a.tier,
+                                   'tree': 'scratch worktree (VERIF_REPO)' if a.scratch else '/repo'}
                                for c, r in res.items()}}
         old = os.path.join(d, 'meta.json')
         if os.path.exists(old):
